@@ -139,10 +139,15 @@ def excel_rows(source_path, sheet=1):
                     location.advance_cell()
                 yield row
                 location.advance_line()
-    except (xlrd.XLRDError, zipfile.BadZipFile) as error:
-        raise errors.DataFormatError("cannot read Excel file: %s" % error, location)
+    except (errors.CutplaceError, EnvironmentError):
+        raise
     except UnicodeError as error:
         raise errors.DataFormatError("cannot decode Excel data: %s" % error, location)
+    except Exception as error:
+        # NOTE: Depending on where an Excel file is damaged or what kind of cell it cannot convert, xlrd and the
+        # modules it builds on raise all kind of errors, for example XLRDError, XLDateError, BadZipFile,
+        # zlib.error, KeyError or IndexError.
+        raise errors.DataFormatError("cannot read Excel file: %s" % error, location)
 
 
 def _raise_delimited_data_format_error(delimited_path, reader, error):
